@@ -1,4 +1,7 @@
-package main
+// Package dmaworld closes the real driver copy middleware + real command processor + real DMA engines
+// with an explorer-driven memory, write-back cache and compute unit. Used by C11 (bytes moved) and C12
+// (a command observes the memory effects of its predecessors in its own queue; other queues do not disturb it).
+package dmaworld
 
 import (
 	"bytes"
@@ -18,6 +21,7 @@ import (
 	"github.com/sarchlab/mgpusim/v4/amd/timing/cp"
 
 	"verif/mc/explore"
+	"verif/mc/harness"
 	"verif/mc/world"
 )
 
@@ -32,10 +36,9 @@ import (
 // Large pages keep driver construction cheap (the CPU device owns 4 GiB / page
 // size frames); page CROSSING only needs a range around a page boundary. Copies
 // that span three pages use 4 KiB pages (one full middle page = 64 transactions).
-const bPage = 1 << 16
+const BPage = 1 << 16
 
-
-type dmaJob struct {
+type Job struct {
 	Queue int    `json:"queue"`
 	H2D   bool   `json:"h2d"`
 	Off   uint64 `json:"offset"`
@@ -46,20 +49,20 @@ type dmaJob struct {
 	Kernel bool `json:"kernel,omitempty"`
 }
 
-type dmaCfg struct {
-	Name     string   `json:"name"`
-	NGPU     int      `json:"ngpu"`
-	Pages    int      `json:"buffer_pages"`
-	Jobs     []dmaJob `json:"jobs"`
-	MaxReq   uint64   `json:"max_request_count"`
-	Cycles   int      `json:"middleware_cycles"`
-	Log2Page uint64   `json:"log2_page"` // 0 = 16
-	Dirty    bool     `json:"dirty"`     // buffers marked dirty as after a kernel launch: copies are preceded by a flush of every GPU
+type Cfg struct {
+	Name     string `json:"name"`
+	NGPU     int    `json:"ngpu"`
+	Pages    int    `json:"buffer_pages"`
+	Jobs     []Job  `json:"jobs"`
+	MaxReq   uint64 `json:"max_request_count"`
+	Cycles   int    `json:"middleware_cycles"`
+	Log2Page uint64 `json:"log2_page"` // 0 = 16
+	Dirty    bool   `json:"dirty"`     // buffers marked dirty as after a kernel launch: copies are preceded by a flush of every GPU
 	// QueueCtx: context of every queue (index; 0 = the first context, k > 0 =
 	// the k-th sibling made with InitWithExistingPID). nil = all in context 0.
 	QueueCtx []int `json:"queue_ctx,omitempty"`
-	NoStall  bool     `json:"-"`
-	NoDelays bool     `json:"-"`
+	NoStall  bool  `json:"-"`
+	NoDelays bool  `json:"-"`
 }
 
 // envCU is the compute unit the environment plays (resources of a GCN3 CU).
@@ -112,14 +115,14 @@ type memTx struct {
 	n        uint64
 }
 
-func dmaBody(c dmaCfg) explore.Body {
+func Body(c Cfg) explore.Body {
 	return func(x *explore.Exec) *explore.Violation {
 		w := world.New(x, 3000)
 		bLog2Page := c.Log2Page
 		if bLog2Page == 0 {
 			bLog2Page = 16
 		}
-		bPage := uint64(1) << bLog2Page
+		BPage := uint64(1) << bLog2Page
 		var viol *explore.Violation
 		fail := func(sig, f string, a ...any) {
 			if viol == nil {
@@ -137,7 +140,7 @@ func dmaBody(c dmaCfg) explore.Body {
 		// memory image: every GPU owns 8 pages, initialised with a pattern
 		memory := map[uint64]byte{}
 		refImg := map[uint64]byte{}
-		gpuBase := func(g int) uint64 { return (4 << 30) + bPage + uint64(g)*8*bPage }
+		gpuBase := func(g int) uint64 { return (4 << 30) + BPage + uint64(g)*8*BPage }
 		var cps []*cp.CommandProcessor
 		var dmas []*cp.DMAEngine
 		var mappers []*mem.InterleavedAddressPortMapper
@@ -177,9 +180,9 @@ func dmaBody(c dmaCfg) explore.Body {
 			conn.PlugIn(p.ToDMA)
 			conn.PlugIn(d.ToCP)
 			w.NewWire(name+".memwire", d.ToMem)
-			drv.RegisterGPU(p.ToDriver, driver.DeviceProperties{CUCount: 4, DRAMSize: 8 * bPage})
+			drv.RegisterGPU(p.ToDriver, driver.DeviceProperties{CUCount: 4, DRAMSize: 8 * BPage})
 			cps, dmas, mappers = append(cps, p), append(dmas, d), append(mappers, mp)
-			for a := gpuBase(g); a < gpuBase(g)+8*bPage; a += 997 { // sparse pattern, enough to see stray writes
+			for a := gpuBase(g); a < gpuBase(g)+8*BPage; a += 997 { // sparse pattern, enough to see stray writes
 				memory[a] = byte(a*7 + 1)
 				refImg[a] = memory[a]
 			}
@@ -382,7 +385,7 @@ func dmaBody(c dmaCfg) explore.Body {
 
 		// --- what the driver sends to the GPUs: the page-wise split
 		type cmdState struct {
-			job  dmaJob
+			job  Job
 			next uint64 // next virtual offset expected
 		}
 		var ctx *driver.Context
@@ -425,15 +428,15 @@ func dmaBody(c dmaCfg) explore.Body {
 				fail("driver/piece-length-wrong", "piece of %d bytes at virtual %#x exceeds the command (offset %d of %d)", n, v, cs.next, cs.job.Len)
 				return
 			}
-			if v/bPage != (v+n-1)/bPage {
+			if v/BPage != (v+n-1)/BPage {
 				fail("driver/piece-crosses-page", "piece [%#x,+%d) crosses a page boundary", v, n)
 			}
-			if cs.next+n < cs.job.Len && (v+n)%bPage != 0 {
+			if cs.next+n < cs.job.Len && (v+n)%BPage != 0 {
 				fail("driver/piece-ends-inside-page", "piece [%#x,+%d) stops before the page end although the command continues", v, n)
 			}
 			g := -1
 			for i := range cps {
-				if paddr >= gpuBase(i) && paddr < gpuBase(i)+8*bPage {
+				if paddr >= gpuBase(i) && paddr < gpuBase(i)+8*BPage {
 					g = i
 				}
 			}
@@ -460,13 +463,13 @@ func dmaBody(c dmaCfg) explore.Body {
 		// --- the application: allocate, distribute, enqueue, kick the driver
 		ctx = drv.Init()
 		drv.SelectGPU(ctx, 1)
-		ptr = uint64(drv.AllocateMemory(ctx, uint64(c.Pages)*bPage))
+		ptr = uint64(drv.AllocateMemory(ctx, uint64(c.Pages)*BPage))
 		if c.NGPU > 1 {
 			ids := make([]int, c.NGPU)
 			for i := range ids {
 				ids[i] = i + 1
 			}
-			drv.Distribute(ctx, driver.Ptr(ptr), uint64(c.Pages)*bPage, ids)
+			drv.Distribute(ctx, driver.Ptr(ptr), uint64(c.Pages)*BPage, ids)
 		}
 		if c.Dirty {
 			driver.VerifContextMarkBuffersDirty(ctx)
@@ -482,7 +485,7 @@ func dmaBody(c dmaCfg) explore.Body {
 			for k, b := range kernBytes(job, j.Len) {
 				pa := translate(ptr + j.Off + uint64(k))
 				for g := 0; g < c.NGPU; g++ {
-					if pa >= gpuBase(g) && pa < gpuBase(g)+8*bPage {
+					if pa >= gpuBase(g) && pa < gpuBase(g)+8*BPage {
 						caches[g][pa] = b
 					}
 				}
@@ -603,7 +606,7 @@ func dmaBody(c dmaCfg) explore.Body {
 			for k := range want {
 				want[k] = d2hExpect(c, i, uint64(k), func(v uint64) byte {
 					pa := translate(v)
-					if b, ok := initialByte(pa, gpuBase, c.NGPU, bPage); ok {
+					if b, ok := initialByte(pa, gpuBase, c.NGPU, BPage); ok {
 						return b
 					}
 					return 0
@@ -654,10 +657,10 @@ func hostBytes(job int, n uint64) []byte {
 	return out
 }
 
-func initialByte(pa uint64, gpuBase func(int) uint64, n int, bPage uint64) (byte, bool) {
+func initialByte(pa uint64, gpuBase func(int) uint64, n int, BPage uint64) (byte, bool) {
 	for g := 0; g < n; g++ {
 		b := gpuBase(g)
-		if pa >= b && pa < b+8*bPage && (pa-b)%997 == 0 {
+		if pa >= b && pa < b+8*BPage && (pa-b)%997 == 0 {
 			return byte(pa*7 + 1), true
 		}
 	}
@@ -667,7 +670,7 @@ func initialByte(pa uint64, gpuBase func(int) uint64, n int, bPage uint64) (byte
 // d2hExpect is the byte a D2H job must return at index k: the last H2D that
 // precedes it IN THE SAME QUEUE and covers the byte, else the initial memory.
 // Jobs of different queues never overlap in these scenarios.
-func d2hExpect(c dmaCfg, job int, k uint64, initial func(v uint64) byte, ptr uint64) byte {
+func d2hExpect(c Cfg, job int, k uint64, initial func(v uint64) byte, ptr uint64) byte {
 	j := c.Jobs[job]
 	v := j.Off + k
 	if i := d2hSource(c, job, k); i >= 0 {
@@ -681,7 +684,7 @@ func d2hExpect(c dmaCfg, job int, k uint64, initial func(v uint64) byte, ptr uin
 
 // d2hSource is the job that last wrote byte k of D2H job `job` before it in
 // the same queue (H2D or kernel), or -1 for the initial memory.
-func d2hSource(c dmaCfg, job int, k uint64) int {
+func d2hSource(c Cfg, job int, k uint64) int {
 	j := c.Jobs[job]
 	v := j.Off + k
 	for i := job - 1; i >= 0; i-- {
@@ -691,4 +694,94 @@ func d2hSource(c dmaCfg, job int, k uint64) int {
 		}
 	}
 	return -1
+}
+
+// Scenarios are the interleaving scenarios of C11 part (b).
+func Scenarios(thorough bool) []harness.Scenario {
+	bound := 2
+	if thorough {
+		bound = 3
+	}
+	var scs []harness.Scenario
+	add := func(c Cfg, b int) {
+		scs = append(scs, harness.Scenario{Name: c.Name, Bound: b, Body: Body(c)})
+	}
+	// one queue: H2D across a page boundary (two GPUs), then D2H of a sub-range
+	add(Cfg{Name: "b/2gpu/h2d-then-d2h/page-crossing", NGPU: 2, Pages: 2, MaxReq: 4,
+		Jobs: []Job{{Queue: 0, H2D: true, Off: BPage - 70, Len: 140}, {Queue: 0, H2D: false, Off: BPage - 65, Len: 130}}}, bound)
+	// unaligned short copies inside one line and across one line boundary
+	add(Cfg{Name: "b/1gpu/unaligned-lines", NGPU: 1, Pages: 1, MaxReq: 4,
+		Jobs: []Job{{Queue: 0, H2D: true, Off: 3, Len: 61}, {Queue: 0, H2D: true, Off: 63, Len: 3}, {Queue: 0, H2D: false, Off: 1, Len: 67}}}, bound)
+	// two queues in flight at once, disjoint ranges, DMA limited to one request at a time
+	add(Cfg{Name: "b/1gpu/two-queues/maxreq1", NGPU: 1, Pages: 1, MaxReq: 1,
+		Jobs: []Job{{Queue: 0, H2D: true, Off: 0, Len: 65}, {Queue: 1, H2D: true, Off: 128, Len: 70}, {Queue: 0, H2D: false, Off: 0, Len: 65}, {Queue: 1, H2D: false, Off: 130, Len: 64}}}, bound)
+	add(Cfg{Name: "b/2gpu/two-queues/maxreq2/cycles3", NGPU: 2, Pages: 2, MaxReq: 2, Cycles: 3,
+		Jobs: []Job{{Queue: 0, H2D: true, Off: BPage - 3, Len: 67}, {Queue: 1, H2D: true, Off: 200, Len: 64}, {Queue: 1, H2D: false, Off: 199, Len: 66}, {Queue: 0, H2D: false, Off: BPage - 1, Len: 2}}}, bound)
+	// buffers dirty as after a kernel: every copy is preceded by a flush of BOTH GPUs although it touches one
+	add(Cfg{Name: "b/2gpu/dirty/flush-all-copy-one", NGPU: 2, Pages: 2, MaxReq: 4, Dirty: true,
+		Jobs: []Job{{Queue: 0, H2D: true, Off: 5, Len: 60}, {Queue: 0, H2D: false, Off: 5, Len: 60}}}, bound)
+	// kernels on two queues of ONE process, each followed by a D2H of its output: the explorer owns the kernels'
+	// completion times, the flush acknowledgement delays and the memory responses
+	add(Cfg{Name: "b/1gpu/two-queues/kernel-then-d2h", NGPU: 1, Pages: 1, MaxReq: 4,
+		Jobs: []Job{{Queue: 0, Kernel: true, Off: 0, Len: 70}, {Queue: 1, Kernel: true, Off: 256, Len: 66}, {Queue: 0, Off: 0, Len: 70}, {Queue: 1, Off: 255, Len: 68}}}, bound)
+	add(Cfg{Name: "b/1gpu/sibling-contexts/kernel-then-d2h", NGPU: 1, Pages: 1, MaxReq: 4, QueueCtx: []int{0, 1},
+		Jobs: []Job{{Queue: 0, Kernel: true, Off: 3, Len: 61}, {Queue: 1, Kernel: true, Off: 128, Len: 64}, {Queue: 0, Off: 3, Len: 61}, {Queue: 1, Off: 128, Len: 64}}}, bound)
+	if thorough {
+		add(Cfg{Name: "b/2gpu/two-queues/kernel-then-d2h-then-h2d/page-crossing", NGPU: 2, Pages: 2, MaxReq: 2, QueueCtx: []int{0, 1},
+			Jobs: []Job{{Queue: 0, Kernel: true, Off: BPage - 40, Len: 80}, {Queue: 1, Kernel: true, Off: 512, Len: 64}, {Queue: 0, Off: BPage - 40, Len: 80},
+				{Queue: 1, Off: 512, Len: 64}, {Queue: 1, H2D: true, Off: 512, Len: 32}, {Queue: 1, Off: 510, Len: 40}}}, 2)
+		add(Cfg{Name: "b/3gpu/three-pages/4KiB-pages", NGPU: 3, Pages: 3, MaxReq: 4, Log2Page: 12,
+			Jobs: []Job{{Queue: 0, H2D: true, Off: 4096 - 3, Len: 4096 + 5}, {Queue: 0, H2D: false, Off: 4096 - 1, Len: 4096 + 2}}}, 1)
+		add(Cfg{Name: "b/4gpu/two-queues", NGPU: 4, Pages: 4, MaxReq: 4, Cycles: 1,
+			Jobs: []Job{{Queue: 0, H2D: true, Off: BPage - 1, Len: 66}, {Queue: 1, H2D: true, Off: 3*BPage - 65, Len: 129}, {Queue: 0, H2D: false, Off: BPage - 1, Len: 66}, {Queue: 1, H2D: false, Off: 3*BPage - 64, Len: 127}}}, 2)
+	}
+	return scs
+}
+
+func firstDiff(a, b []byte) int {
+	for i := range a {
+		if i >= len(b) || a[i] != b[i] {
+			return i
+		}
+	}
+	return len(a)
+}
+
+// QueueScenarios are the scenarios of C12's memory-effects part: several
+// queues (and sibling contexts) of ONE process whose commands are kernels and
+// copies; every D2H must return what the last writer before it in its own
+// queue stored, whatever the other queues do meanwhile.
+func QueueScenarios(thorough bool) []harness.Scenario {
+	bound := 2
+	var scs []harness.Scenario
+	add := func(c Cfg, b int) {
+		scs = append(scs, harness.Scenario{Name: c.Name, Bound: b, Body: Body(c)})
+	}
+	// one queue, strict FIFO of effects: H2D, kernel over part of it, D2H of both, H2D over part, D2H
+	add(Cfg{Name: "q/1gpu/one-queue/h2d-kernel-d2h-h2d-d2h", NGPU: 1, Pages: 1, MaxReq: 4,
+		Jobs: []Job{{Queue: 0, H2D: true, Off: 0, Len: 64}, {Queue: 0, Kernel: true, Off: 32, Len: 64}, {Queue: 0, Off: 0, Len: 96},
+			{Queue: 0, H2D: true, Off: 40, Len: 10}, {Queue: 0, Off: 30, Len: 30}}}, bound)
+	// two queues of one context, a kernel then a D2H of its output on each
+	add(Cfg{Name: "q/1gpu/two-queues/kernel-then-d2h", NGPU: 1, Pages: 1, MaxReq: 4,
+		Jobs: []Job{{Queue: 0, Kernel: true, Off: 0, Len: 70}, {Queue: 1, Kernel: true, Off: 256, Len: 66}, {Queue: 0, Off: 0, Len: 70}, {Queue: 1, Off: 255, Len: 68}}}, bound)
+	// the other queue only copies (its flush acknowledgements arrive while this queue's kernel runs)
+	add(Cfg{Name: "q/1gpu/two-queues/kernel-d2h-vs-copies", NGPU: 1, Pages: 1, MaxReq: 4,
+		Jobs: []Job{{Queue: 1, Kernel: true, Off: 512, Len: 8}, {Queue: 0, Kernel: true, Off: 0, Len: 66}, {Queue: 1, Off: 512, Len: 8}, {Queue: 1, H2D: true, Off: 600, Len: 8},
+			{Queue: 0, Off: 0, Len: 66}}}, bound)
+	add(Cfg{Name: "q/1gpu/sibling-contexts/kernel-then-d2h", NGPU: 1, Pages: 1, MaxReq: 4, QueueCtx: []int{0, 1},
+		Jobs: []Job{{Queue: 0, Kernel: true, Off: 3, Len: 61}, {Queue: 1, Kernel: true, Off: 128, Len: 64}, {Queue: 0, Off: 3, Len: 61}, {Queue: 1, Off: 128, Len: 64}}}, bound)
+	add(Cfg{Name: "q/2gpu/two-queues/kernel-then-d2h/page-crossing", NGPU: 2, Pages: 2, MaxReq: 2,
+		Jobs: []Job{{Queue: 0, Kernel: true, Off: BPage - 8, Len: 16}, {Queue: 1, Kernel: true, Off: 512, Len: 8}, {Queue: 0, Off: BPage - 8, Len: 16}, {Queue: 1, Off: 512, Len: 8}}}, bound)
+	if thorough {
+		add(Cfg{Name: "q/1gpu/three-queues/kernel-then-d2h", NGPU: 1, Pages: 1, MaxReq: 4, QueueCtx: []int{0, 0, 1},
+			Jobs: []Job{{Queue: 0, Kernel: true, Off: 0, Len: 8}, {Queue: 1, Kernel: true, Off: 128, Len: 8}, {Queue: 2, Kernel: true, Off: 256, Len: 8},
+				{Queue: 0, Off: 0, Len: 8}, {Queue: 1, Off: 128, Len: 8}, {Queue: 2, Off: 256, Len: 8}}}, 2)
+		add(Cfg{Name: "q/2gpu/two-queues/kernel-then-d2h-then-h2d/page-crossing", NGPU: 2, Pages: 2, MaxReq: 2, QueueCtx: []int{0, 1},
+			Jobs: []Job{{Queue: 0, Kernel: true, Off: BPage - 40, Len: 80}, {Queue: 1, Kernel: true, Off: 512, Len: 64}, {Queue: 0, Off: BPage - 40, Len: 80},
+				{Queue: 1, Off: 512, Len: 64}, {Queue: 1, H2D: true, Off: 512, Len: 32}, {Queue: 1, Off: 510, Len: 40}}}, 3)
+		add(Cfg{Name: "q/1gpu/two-queues/two-kernels-each", NGPU: 1, Pages: 1, MaxReq: 4,
+			Jobs: []Job{{Queue: 0, Kernel: true, Off: 0, Len: 16}, {Queue: 1, Kernel: true, Off: 256, Len: 16}, {Queue: 0, Kernel: true, Off: 8, Len: 16}, {Queue: 1, Kernel: true, Off: 264, Len: 16},
+				{Queue: 0, Off: 0, Len: 24}, {Queue: 1, Off: 256, Len: 24}}}, 2)
+	}
+	return scs
 }
